@@ -92,7 +92,11 @@ func runCase(o *hx.Out, f *hx.Flags, k int) {
 		return
 	}
 	if k%6 == 2 {
-		runRestoreCase(o, f, k, r)
+		if r.Chance(2, 5) {
+			runJumpCase(o, f, k, r)
+		} else {
+			runRestoreCase(o, f, k, r)
+		}
 		return
 	}
 	c := combos[r.Intn(len(combos))]
